@@ -1,2 +1,51 @@
-(* C20 statements; proofs in Proofs/. *)
-From BaoV Require Import Model.Fsm Spec.EncSpec.
+(* C20 statements; proofs in Proofs/DecConst.v. *)
+From BaoV Require Import Model.Fsm Spec.EncSpec Spec.PTree.
+From Coq Require Import Arith.
+From BaoV Require Import Proofs.DecLoop Proofs.DecForest Proofs.DecConst.
+
+(* dec_reach st0 st / rd_reach st0 st: st is reached from st0 by any number of calls of next,
+   whatever they returned (Ok, Err or Panic) *)
+Theorem C20_reach_def : forall HO (st0 : dstate HO) (r0 : rstate HO),
+  dec_reach HO st0 st0 /\
+  (forall st r st', dec_reach HO st0 st -> dec_next HO st = Some (r, st') -> dec_reach HO st0 st') /\
+  rd_reach HO r0 r0 /\
+  (forall st r st', rd_reach HO r0 st -> rd_next HO st = RMore st' r -> rd_reach HO r0 st').
+Proof. exact reach_def. Qed.
+Print Assumptions C20_reach_def.
+
+Theorem C20_tree_const : forall HO root t enc q,
+  (forall st, dec_reach HO (dec_new HO root t enc q) st ->
+     dec_tree HO st = t /\ dec_tree HO st = mkTree (tsize t) (tbs t)) /\
+  (forall st, rd_reach HO (rd_new HO root q t enc) st ->
+     rd_tree HO st = t /\ rd_tree HO st = mkTree (tsize t) (tbs t)).
+Proof. exact tree_const. Qed.
+Print Assumptions C20_tree_const.
+
+Theorem C20_hash_const : forall HO root q t enc st,
+  rd_reach HO (rd_new HO root q t enc) st -> rd_hash HO st = Some root.
+Proof. exact rd_hash_const. Qed.
+Print Assumptions C20_hash_const.
+
+(* rd_ok_run st0 ys st: st is reached from st0 by successful calls of next that yielded ys *)
+Theorem C20_ok_run_def : forall HO (st0 : rstate HO),
+  rd_ok_run HO st0 [] st0 /\
+  (forall ys st it st', rd_ok_run HO st0 ys st -> rd_next HO st = RMore st' (Ok it) ->
+     rd_ok_run HO st0 (ys ++ [it]) st').
+Proof. exact ok_run_def. Qed.
+Print Assumptions C20_ok_run_def.
+
+(* the reader handed back by finish() or by the final next() is the stream minus exactly the bytes
+   of the items yielded so far, for honest and dishonest streams alike *)
+Theorem C20_reader_position : forall HO root q t (stream : bytes HO) ys st,
+  rd_ok_run HO (rd_new HO root q t stream) ys st ->
+  stream = flat_items HO ys ++ rd_finish HO st /\
+  (forall reader, rd_next HO st = RDone reader -> stream = flat_items HO ys ++ reader).
+Proof. exact rd_reader_position. Qed.
+Print Assumptions C20_reader_position.
+
+(* the sync decoder's remaining stream likewise *)
+Theorem C20_sync_position : forall HO root t (stream : bytes HO) q ys st,
+  dec_ok_run HO (dec_new HO root t stream q) ys st ->
+  stream = flat_items HO ys ++ d_enc HO st.
+Proof. exact dec_reader_position. Qed.
+Print Assumptions C20_sync_position.
